@@ -121,6 +121,19 @@ class Scheduler:
     self._blocked[i] = lock
     self._park(i)
 
+  def wait_until(self, pred):
+    """Cooperative condition wait for user code running under the scheduler (e.g. a constructor
+    that waits for work done by another thread): the thread is not runnable until pred() holds."""
+    i = self.current_index()
+    if i is None:
+      if not pred():
+        raise Stuck('controller would wait for a condition')
+      return
+    while not pred():
+      self._waiting[i] = pred
+      self._park(i)
+    self._waiting.pop(i, None)
+
   def lock_released(self, lock):
     for i, l in list(self._blocked.items()):
       if l is lock:
@@ -146,6 +159,7 @@ class Scheduler:
     self._ctl = threading.Semaphore(0)
     self._done = set()
     self._blocked = {}
+    self._waiting = {}
     self._where = [None] * n
     self._free_run = False
     self.results = [None] * n
@@ -157,10 +171,12 @@ class Scheduler:
     current = None
     pos = 0
     while len(self._done) < n:
-      runnable = [i for i in range(n) if i not in self._done and i not in self._blocked]
+      runnable = [i for i in range(n) if i not in self._done and i not in self._blocked and
+                  not (i in self._waiting and not self._waiting[i]())]
       if not runnable:
-        raise Deadlock('threads %s blocked on %s' % (
-            sorted(self._blocked), sorted({l.name for l in self._blocked.values()})))
+        raise Deadlock('threads %s blocked on %s; threads %s waiting for a condition' % (
+            sorted(self._blocked), sorted({l.name for l in self._blocked.values()}),
+            sorted(i for i in self._waiting if i not in self._done)))
       if pos < len(self.choices) and self.steps < self.max_steps:
         pick = runnable[self.choices[pos] % len(runnable)]
         pos += 1
@@ -215,11 +231,14 @@ def install_coop_locks(module, sched):
   if getattr(module, 'threading', None) is threading or isinstance(
       getattr(module, 'threading', None), _ThreadingShim):
     module.threading = _ThreadingShim(sched)
-  names = []
-  for name, value in list(vars(module).items()):
+  names, by_identity = [], {}
+  for name, value in sorted(vars(module).items()):
     if isinstance(value, _LOCK_TYPES):
       reentrant = isinstance(value, type(threading.RLock()))
-      setattr(module, name, CoopLock(sched, reentrant, name))
+      # one lock object known under several names stays one lock
+      if id(value) not in by_identity:
+        by_identity[id(value)] = CoopLock(sched, reentrant, name)
+      setattr(module, name, by_identity[id(value)])
       names.append(name)
   return names
 
